@@ -11,7 +11,8 @@ import (
 // well-behaved server would hold) steers the choice so that every handler branch of the model is reached:
 // valid and rejected creates, every kind of update (status, script, dbrps, vars, rename onto free / taken IDs,
 // template change), deletes, template create / update (incl. ID change, scripts that make the n-th task fail) /
-// delete, clean restarts, refused starts (fail=) and crash points (crash=k).
+// delete, clean restarts, refused starts (fail=), crash points (crash=k) and run-time deaths of executing tasks
+// (die <id>: never decorated with fail= / crash= / fault=).
 //
 // mode 0 (60 %): no refused starts, no crash points — judged by the spec without any recorded deviation
 // mode 1 (20 %): refused starts
@@ -219,6 +220,14 @@ func genCase(r *kit.Rand, idx int, tier string) []string {
 					sh.task[nid] = t
 				}
 			}
+		case k < 66 && len(existing()) > 0: // run-time death of a (preferably enabled) task
+			var en []string
+			for _, id := range existing() {
+				if sh.task[id].enabled {
+					en = append(en, id)
+				}
+			}
+			ops = append(ops, "die "+pickOr(en, existing()), "list")
 		case k < 70: // delete
 			id := pickOr(existing(), taskIDs)
 			add("delete " + id)
